@@ -40,6 +40,15 @@ def cases(tier, inst):
                     yield {"streams": ms, "zones": labels, "uset": ui}
 
 
+def crowd_cases(tier, inst):
+    """problems of realistic size (9-30 streams, all lattice types at once and regular sub-selections) x zonings x utility sets"""
+    for ms in P.crowds(inst, 3, dts=(1,)):
+        n = len(ms)
+        for zones in (["A"] * n, [["A", "B", "A/C"][i % 3] for i in range(n)]):
+            for ui in (0, 3, 7, 11):
+                yield {"streams": ms, "zones": zones, "uset": ui}
+
+
 def op_cases(tier, inst):
     """unit-operation targeting switched on: every stream is its own operation zone with its own record"""
     for ms in P.stream_multisets(inst, 3, 3 if tier == "thorough" else 2, cps=(1, 2), dts=(1,), iso=True, min_n=2):
@@ -117,7 +126,7 @@ _INST = [None]
 
 def _cases(tier, inst):
     _INST[0] = inst
-    for c in itertools.chain(cases(tier, inst), op_cases(tier, inst)):
+    for c in itertools.chain(cases(tier, inst), op_cases(tier, inst), crowd_cases(tier, inst)):
         c["inst"] = list(inst)
         yield c
 
@@ -129,7 +138,7 @@ SUBCHECKS = {
         rule="case = stream multiset x zone labels x utility set; non-trivial = at least two record kinds with a non-zero Qh or Qc; "
              "outcomes = distinct record lists",
         cases=_cases, run=run,
-        bound=lambda t: "multisets of <=2 streams (K=3) x (one zone x 7 utility sets + all <=2-zone labellings x 2 sets) + 3-stream sets x <=3 zones x 2 sets" if t == "quick"
+        bound=lambda t: "multisets of <=2 streams (K=3) x (one zone x 7 utility sets + all <=2-zone labellings x 2 sets) + 3-stream sets x <=3 zones x 2 sets + 7 problems of 9-30 streams x 2 zonings x 4 sets" if t == "quick"
         else "multisets of <=2 streams (K=4) x <=2 zones x 12 utility sets + 3-stream sets (K=3) x <=3 zones x 8 utility sets",
     ),
 }
